@@ -115,6 +115,33 @@ def families(rng, n):
     return out
 
 
+def near_zero_sweep(chk: Check):
+    """Tiny groups whose control mean approaches zero through a geometric grid: the log-scale half-width of the relative
+    interval (standard error / |mean| x quantile) sweeps from tens to millions, through every magnitude at which exp()
+    is large, overflows, or is replaced by a shortcut — each must give a result (finite or inf), never an exception."""
+    import pyarrow as pa
+    import tea_tasting as tt
+    for eps in (0.3, 0.1, 0.03, 0.01, 0.005, 0.002, 0.001, 1e-4, 1e-6, 1e-9):
+        for sign in (1.0, -1.0):
+            data = pa.table({"variant": [0, 0, 1, 1, 1], "x": [sign, -sign * (1 - eps), 2.0, 2.5, 3.5]})
+            for alt in ALTS:
+                for ev in (False, True):
+                    for ut in (False, True):
+                        inp = dict(family=f"near-zero-control-mean/eps={eps:g}/sign={sign:g}", cell=[alt, ev, ut],
+                                   control=[sign, -sign * (1 - eps)], treatment=[2.0, 2.5, 3.5])
+                        chk.case(("near-zero-sweep", eps, sign, alt, ev, ut), nontrivial=False)
+                        chk.branch("family:near-zero-control-mean-sweep")
+                        try:
+                            r = tt.Mean("x", alternative=alt, equal_var=ev, use_t=ut).analyze(data, 0, 1, "variant")
+                        except Exception as ex:  # noqa: BLE001
+                            chk.fail("analysis raised on degenerate but valid data", dict(input=inp, error=repr(ex)))
+                            continue
+                        want = r.treatment / r.control - 1
+                        if not (r.rel_effect_size == want or abs(r.rel_effect_size - want) <= 1e-9 * abs(want)):
+                            chk.fail("rel_effect_size is not treatment/control - 1 although the control mean is non-zero",
+                                     dict(input=inp, observed=r.rel_effect_size, expected=want))
+
+
 def make_inputs(cols):
     import pandas as pd
     import polars as pl
@@ -196,10 +223,12 @@ def main():
     dispatch_semantics(chk)
     kinds = ["pandas", "polars", "polars-lazy", "pyarrow"]
     search(chk, 9 if chk.tier == "quick" else 40, kinds if chk.tier == "thorough" else kinds)
+    near_zero_sweep(chk)
     chk.cov["rule"] = ("11 degenerate families (constant columns, zero control mean, zero denominator mean/values, numerator "
                        "proportional to denominator, covariate equal to / affine in the metric, control mean within rounding of "
                        "zero, all zero, integer columns) x group sizes {2,3,n} x magnitudes {1,1e-8,1e8,1e50,1e99} x 4 input "
-                       "kinds x rotating option cells x {Mean, Mean+cov, RatioOfMeans, RatioOfMeans+cov}")
+                       "kinds x rotating option cells x {Mean, Mean+cov, RatioOfMeans, RatioOfMeans+cov}; plus a sweep of control means "
+                       "approaching zero (relative distance 0.3 .. 1e-9, both signs) x all 12 option cells")
     chk.cov["proved"] = proved
 
     def extended():
